@@ -20,7 +20,9 @@ use std::rc::Rc;
 const HEX_A: &str = "b94d27b9934d3e08a52e52d7da7dabfac484efe37a5380ee9088f7ace2efcde9";
 const HEX_B: &str = "ba7816bf8f01cfea414140de5dae2223b00361a396177a9cb410ff61f20015ad";
 const ROOT_DIGESTS: [&str; 7] = [HEX_A, HEX_B, "d", "r", "e", "1f600", "abc"];
-const CHILD_DIGESTS: [&str; 2] = [HEX_B, "abc"];
+// digests in prefix relation with each other and with the marker letters: `_` sorts between digits and lower-case letters,
+// so comparing identifier TEXT differs from comparing (digest, tail) field-wise exactly on such pairs
+const CHILD_DIGESTS: [&str; 6] = [HEX_B, "abc", "ab", "d5", "da", "e0"];
 const FORCED: [u32; 9] = [2, 9, 10, 11, 99, 100, 999, 1000, u32::MAX - 1];
 
 #[derive(Clone, Debug)]
@@ -222,7 +224,7 @@ pub fn run(thorough: bool, _seed: u64) -> Report {
     let mut rep = Report::new(
         "revision",
         &format!(
-            "pool: 7 roots, children via new_updated(2 digests)/new_deleted/new_resolved/new_empty to depth {}, plus Revision::new(idx,d,Some(p)) for idx in {:?} on 3 parents; all members, all ordered pairs, all triples of a sub-pool (<= ~2M triples)",
+            "pool: 7 roots, children via new_updated(6 digests incl. prefix-related ones)/new_deleted/new_resolved/new_empty to depth {}, plus Revision::new(idx,d,Some(p)) for idx in {:?} on 3 parents; all members, all ordered pairs, all triples of a sub-pool (<= ~2M triples)",
             depth, FORCED
         ),
         "exhaustive enumeration of pool members (unary checks a,b,c), ordered pairs (d,e,f) and sub-pool triples (transitivity); non-trivial = pair with equal index or a marker digest (d/r/e) involved; unary case non-trivial when index > 1",
